@@ -107,6 +107,38 @@ def eval_mp(t, x, mp):
     raise ValueError(t)
 
 
+def eval_mp_perturbed(t, x, mp, target, factor, _ctr=None):
+    """As eval_mp, but the value of the node with preorder index `target` is multiplied by `factor`
+    (used to measure the sensitivity of the result to a rounding error committed at that node)."""
+    if _ctr is None:
+        _ctr = [0]
+    idx = _ctr[0]
+    _ctr[0] += 1
+    k = t[0]
+    if k == 'x':
+        v = x
+    elif k == 'c':
+        v = mp.mpf(t[1])
+    elif k in ('add', 'sub', 'mul', 'div'):
+        a = eval_mp_perturbed(t[1], x, mp, target, factor, _ctr)
+        b = eval_mp_perturbed(t[2], x, mp, target, factor, _ctr)
+        v = a + b if k == 'add' else a - b if k == 'sub' else a * b if k == 'mul' else a / b
+    elif k == 'powi':
+        v = eval_mp_perturbed(t[1], x, mp, target, factor, _ctr) ** int(t[2])
+    elif k == 'powr':
+        v = mp.power(eval_mp_perturbed(t[1], x, mp, target, factor, _ctr), mp.mpf(t[2]))
+    else:
+        a = eval_mp_perturbed(t[2], x, mp, target, factor, _ctr)
+        v = eval_mp(('fn', t[1], ('x',)), a, mp)
+    if idx == target:
+        v = v * factor
+    return v
+
+
+def n_nodes(t):
+    return sum(1 for _ in nodes(t))
+
+
 # ------------------------------------------------------------------------------ validity scan
 class ScanResult(object):
     __slots__ = ('ok', 'reason', 'maxabs')
@@ -195,6 +227,82 @@ def scan(t, pts):
     except Exception as exc:  # pragma: no cover
         bad('scan error %r' % (exc,))
     return ScanResult(st['ok'], st['reason'], st['maxabs'])
+
+
+def _eval_c(t, z):
+    """plain complex evaluation of a node at python complex z (numpy scalar functions)"""
+    k = t[0]
+    if k == 'x':
+        return z
+    if k == 'c':
+        return complex(t[1])
+    if k == 'add':
+        return _eval_c(t[1], z) + _eval_c(t[2], z)
+    if k == 'sub':
+        return _eval_c(t[1], z) - _eval_c(t[2], z)
+    if k == 'mul':
+        return _eval_c(t[1], z) * _eval_c(t[2], z)
+    if k == 'div':
+        return _eval_c(t[1], z) / _eval_c(t[2], z)
+    if k == 'powi':
+        return _eval_c(t[1], z) ** int(t[2])
+    if k == 'powr':
+        return _eval_c(t[1], z) ** float(t[2])
+    return complex(getattr(np, t[1])(np.complex128(_eval_c(t[2], z))))
+
+
+def neighbourhood_ok(t, x, a, b, frac=0.5):
+    """Is the bicomplex argument with idempotent components a, b (base point x, real) inside the
+    neighbourhood of the real domain on which every node of the program is analytic *and* single-branched:
+    for every node that divides, takes a log / root / real power or has poles, the argument values at a and b
+    stay within `frac` of the distance from the value at x to the nearest singular point of that node."""
+    try:
+        with np.errstate(all='ignore'):
+            for n in nodes(t):
+                k = n[0]
+                if k in ('x', 'c', 'add', 'sub', 'mul'):
+                    continue
+                arg = n[2] if k in ('div', 'fn') else n[1]
+                if k == 'powi' and n[2] >= 0:
+                    continue
+                v0, va, vb = _eval_c(arg, complex(x)), _eval_c(arg, complex(a)), _eval_c(arg, complex(b))
+                if not all(np.isfinite([v0.real, va.real, vb.real, va.imag, vb.imag])):
+                    return False
+                spread = max(abs(va - v0), abs(vb - v0))
+                name = n[1] if k == 'fn' else k
+                r0 = v0.real
+                if name in ('div', 'powi', 'powr', 'log', 'sqrt', 'log2', 'log10', 'coth', 'csch'):
+                    dist = abs(r0)
+                elif name == 'log1p':
+                    dist = abs(1 + r0)
+                elif name in ('arcsin', 'arccos', 'arctanh'):
+                    dist = 1 - abs(r0)
+                elif name == 'arccosh':
+                    dist = r0 - 1
+                elif name == 'arcsinh':
+                    dist = math.hypot(r0, 1.0)
+                elif name == 'arctan':
+                    # singular points +-i; the log(1 -+ j w) formula is additionally single-branched only
+                    # while the perturbation of w stays below 1 in absolute size
+                    dist = 1.0
+                elif name in ('tan', 'sec'):
+                    dist = abs(math.remainder(r0 - math.pi / 2, math.pi))
+                elif name in ('cot', 'csc'):
+                    dist = abs(math.remainder(r0, math.pi))
+                elif name in ('tanh', 'sech'):
+                    dist = math.pi / 2        # poles at i(k+1/2)pi; also keeps cosh from changing sign
+                else:
+                    if name in ('exp', 'exp2', 'expm1', 'sinh', 'cosh', 'sin', 'cos'):
+                        dist = 2.0            # entire; only keep the oscillation/growth moderate
+                    else:
+                        dist = 1.0
+                if name in ('coth', 'csch'):
+                    dist = min(dist, math.pi / 2)
+                if dist <= 0 or spread > frac * dist:
+                    return False
+    except Exception:
+        return False
+    return True
 
 
 # ------------------------------------------------------------------------------ generation
